@@ -179,6 +179,22 @@ func (de directoryEntry) encode(enc *iso9660encoder) {
 	enc.setByteAt(byte(enc.size()-startPos), startPos)
 }
 
+// directoryEntriesSize returns amount of bytes occupied by sequentially written directory entries.
+// Entry must not cross sector boundary (ECMA-119 6.8.1.1), so it's moved to the next sector if it doesn't fit.
+// Result is aligned to sector size.
+func directoryEntriesSize(entries []directoryEntry) sizeBytes {
+	var ret sizeBytes
+	for _, entry := range entries {
+		if ret%sectorSize+entry.size() > sectorSize {
+			ret = ret.sectors().bytes()
+		}
+
+		ret += entry.size()
+	}
+
+	return ret.sectors().bytes()
+}
+
 type pathTableEntry struct {
 	ExtendedAttributeRecordLength byte
 	DirLocation                   sizeSectors
